@@ -391,3 +391,280 @@ Lemma start_vector_nugget_slot cs h t : h_tik h = Some t ->
 Proof. intro H. unfold start_vector. rewrite H. cbn [is_none]. split; [reflexivity|apply last_last]. Qed.
 Lemma start_vector_no_nugget cs h : h_tik h = None -> start_vector cs h = cov_vector cs h.
 Proof. intro H. unfold start_vector. rewrite H. apply app_nil_r. Qed.
+
+(* =========================================================================================== Part B: the view *)
+Lemma set_nth_length {A} (x : A) : forall k l, length (set_nth k x l) = length l.
+Proof. induction k as [|k IH]; intros [|y l]; simpl; auto. Qed.
+Lemma set_nth_same {A} (x : A) : forall k l, (k < length l)%nat -> nth_error (set_nth k x l) k = Some x.
+Proof. induction k as [|k IH]; intros [|y l] H; simpl in *; try lia; auto. apply IH. lia. Qed.
+Lemma set_nth_other {A} (x : A) : forall k l j, j <> k -> nth_error (set_nth k x l) j = nth_error l j.
+Proof.
+  induction k as [|k IH]; intros [|y l] [|j] H; simpl; auto; try congruence.
+Qed.
+
+Lemma NoDup_map_inj_in {A B} (f : A -> B) : forall l a b, NoDup (map f l) -> In a l -> In b l -> f a = f b -> a = b.
+Proof.
+  induction l as [|x l IH]; intros a b Hnd Ha Hb Hf; [destruct Ha|]. simpl in Hnd. inversion Hnd as [|? ? Hx Hl]; subst.
+  destruct Ha as [->|Ha], Hb as [->|Hb]; auto.
+  - exfalso. apply Hx. rewrite Hf. apply in_map. exact Hb.
+  - exfalso. apply Hx. rewrite <- Hf. apply in_map. exact Ha.
+Qed.
+
+Definition idx (j : nat * list Q * list Q) : nat := fst (fst j).
+
+Section ViewProofs.
+  Variable cs : list component.
+  Variable mt : bool.
+  Variable rows : list (list Q).
+  Variable hps0 : list hp_dict.
+  Variable opt : nat -> fit -> result (list Q).
+  Notation RJ := (run_jobs cs mt rows hps0 opt).
+
+  Lemma run_jobs_cons index v w r cur trace res :
+    RJ ((index, v, w) :: r) cur trace = Ok res ->
+    exists d, ptp v = Some d /\
+     ((d <= MINVAR /\ RJ r cur trace = Ok res) \/
+      (~ d <= MINVAR /\ exists h x dd, nth_error hps0 index = Some h /\ forallb pos_b (cov_vector cs h) = true /\
+          opt (length trace) (make_fit cs mt rows index v w h) = Ok x /\
+          unpack cs mt (f_auto (make_fit cs mt rows index v w h)) x = Some dd /\
+          RJ r (set_nth index dd cur) (trace ++ [make_fit cs mt rows index v w h]) = Ok res)).
+  Proof.
+    cbn [run_jobs]. destruct (ptp v) as [d|]; [|discriminate]. intro H. exists d. split; [reflexivity|].
+    destruct (Qle_bool d MINVAR) eqn:Ed.
+    - left. split; [apply Qle_bool_iff; exact Ed | exact H].
+    - right. split; [intro C; apply Qle_bool_iff in C; congruence|].
+      destruct (nth_error hps0 index) as [h|]; [|discriminate].
+      destruct (forallb pos_b (cov_vector cs h)) eqn:Ep; cbn [negb] in H; [|discriminate].
+      destruct (opt (length trace) (make_fit cs mt rows index v w h)) as [x|e] eqn:Eo; [|discriminate].
+      destruct (unpack cs mt (f_auto (make_fit cs mt rows index v w h)) x) as [dd|] eqn:Eu; [|discriminate].
+      exists h, x, dd. auto.
+  Qed.
+
+  (* a constructed fit belongs to one job: that job's metric index, values and variances, the supplied dictionary of that
+     metric, the box derived from those values, the start vector from that dictionary; its values are not constant *)
+  Definition fit_ok (jobs : list (nat * list Q * list Q)) (f : fit) : Prop :=
+    exists v w h d, In (f_metric f, v, w) jobs /\ nth_error hps0 (f_metric f) = Some h /\
+      f = make_fit cs mt rows (f_metric f) v w h /\ ptp v = Some d /\ ~ d <= MINVAR /\
+      forallb pos_b (cov_vector cs h) = true.
+
+  Lemma fit_ok_weaken j jobs f : fit_ok jobs f -> fit_ok (j :: jobs) f.
+  Proof. intros (v & w & h & d & H & R). exists v, w, h, d. split; [right; exact H|exact R]. Qed.
+
+  Lemma run_jobs_inv : forall jobs cur trace out tr,
+    RJ jobs cur trace = Ok (out, tr) ->
+    length out = length cur /\
+    exists new, tr = trace ++ new /\
+      Forall (fit_ok jobs) new /\
+      (forall k, ~ In k (map f_metric new) -> nth_error out k = nth_error cur k) /\
+      (NoDup (map idx jobs) -> forall i f, nth_error new i = Some f -> (f_metric f < length cur)%nat ->
+         exists x dd, opt (length trace + i) f = Ok x /\ unpack cs mt (f_auto f) x = Some dd /\
+                      nth_error out (f_metric f) = Some dd).
+  Proof.
+    induction jobs as [|[[index v] w] r IH]; intros cur trace out tr H.
+    - simpl in H. injection H as <- <-. split; [reflexivity|]. exists []. rewrite app_nil_r.
+      repeat split; auto. intros _ [|i] f Hf; discriminate.
+    - apply run_jobs_cons in H. destruct H as (d & Hd & [[Hle H]|[Hnle (h & x & dd & Hh & Hp & Ho & Hu & H)]]).
+      + destruct (IH _ _ _ _ H) as (Hlen & new & -> & Hf & Hun & Hres). split; [exact Hlen|]. exists new.
+        split; [reflexivity|]. split; [|split; [exact Hun|]].
+        * eapply Forall_impl; [|exact Hf]. intros f. apply fit_ok_weaken.
+        * intro Hnd. simpl in Hnd. inversion Hnd; subst. apply Hres. assumption.
+      + set (f := make_fit cs mt rows index v w h) in *.
+        destruct (IH _ _ _ _ H) as (Hlen & new & -> & Hf & Hun & Hres). rewrite set_nth_length in Hlen.
+        split; [exact Hlen|]. exists (f :: new). split; [rewrite <- app_assoc; reflexivity|]. split; [|split].
+        * constructor.
+          -- exists v, w, h, d. repeat split; auto. left. reflexivity.
+          -- eapply Forall_impl; [|exact Hf]. intros f'. apply fit_ok_weaken.
+        * intros k Hk. simpl in Hk. rewrite Hun by tauto. apply set_nth_other. intro C. apply Hk. left. subst k. reflexivity.
+        * intros Hnd i f' Hi Hlt. simpl in Hnd. inversion Hnd as [|? ? Hx Hnd']; subst.
+          destruct i as [|i].
+          -- simpl in Hi. injection Hi as <-. rewrite Nat.add_0_r. exists x, dd. split; [exact Ho|]. split; [exact Hu|].
+             change (f_metric f) with index in *. rewrite Hun; [apply set_nth_same; exact Hlt|].
+             intro C. apply in_map_iff in C. destruct C as (f' & Ef & Hin). rewrite Forall_forall in Hf.
+             destruct (Hf f' Hin) as (v' & w' & _ & _ & Hj & _). apply Hx. change (idx (index, v, w)) with index.
+             apply in_map_iff. exists (f_metric f', v', w'). split; [exact Ef|exact Hj].
+          -- simpl in Hi. destruct (Hres Hnd' i f' Hi) as (x' & dd' & Ho' & Hu' & Hn'); [rewrite set_nth_length; exact Hlt|].
+             exists x', dd'. split; [|split; assumption]. rewrite <- Ho'. f_equal. rewrite app_length. simpl. lia.
+  Qed.
+
+  (* the skip rule: a job whose values span at most 1e-10 constructs nothing (so its dictionary is untouched) *)
+  Lemma skipped_not_fitted jobs new index v w d : NoDup (map idx jobs) -> Forall (fit_ok jobs) new ->
+    In (index, v, w) jobs -> ptp v = Some d -> d <= MINVAR -> ~ In index (map f_metric new).
+  Proof.
+    intros Hnd Hf Hin Hd Hle C. apply in_map_iff in C. destruct C as (f & Ef & Hfin). rewrite Forall_forall in Hf.
+    destruct (Hf f Hfin) as (v' & w' & h & d' & Hj & _ & _ & Hd' & Hn & _). rewrite Ef in Hj.
+    assert (E : (index, v', w') = (index, v, w)) by (apply (NoDup_map_inj_in idx jobs); auto).
+    injection E as -> _. rewrite Hd in Hd'. injection Hd' as <-. exact (Hn Hle).
+  Qed.
+End ViewProofs.
+
+Lemma map_snd_enumerate {A} : forall (l : list A) i, map snd (enumerate_from i l) = l.
+Proof. induction l as [|x l IH]; intro i; simpl; [reflexivity|]. now rewrite IH. Qed.
+Lemma map_idx_jobs_of succ ix o : map idx (jobs_of succ ix o) = ix.
+Proof. unfold jobs_of. rewrite map_map. unfold idx. cbn [fst]. apply map_snd_enumerate. Qed.
+
+Lemma in_enumerate {A} : forall (l : list A) s i x, In (i, x) (enumerate_from s l) <-> (s <= i)%nat /\ nth_error l (i - s) = Some x.
+Proof.
+  induction l as [|y l IH]; intros s i x; simpl.
+  - split; [tauto|]. intros [_ H]. destruct (i - s)%nat; discriminate.
+  - rewrite IH. split.
+    + intros [H|[H1 H2]]; [injection H as <- <-; split; [lia|]; now rewrite Nat.sub_diag|].
+      split; [lia|]. replace (i - s)%nat with (S (i - S s)) by lia. exact H2.
+    + intros [H1 H2]. destruct (Nat.eq_dec i s) as [->|Hne].
+      * left. rewrite Nat.sub_diag in H2. simpl in H2. injection H2 as ->. reflexivity.
+      * right. split; [lia|]. replace (i - s)%nat with (S (i - S s)) in H2 by lia. exact H2.
+Qed.
+
+(* the jobs of a metric family: position i of the index list is fitted on column i of that family's scaled values and
+   variances, at the successful observations only *)
+Lemma in_jobs_of succ ix o index v w : In (index, v, w) (jobs_of succ ix o) <->
+  exists i, nth_error ix i = Some index /\
+            v = Midpoint.select succ (Midpoint.column i (Midpoint.v_values o)) /\
+            w = Midpoint.select succ (Midpoint.column i (Midpoint.v_vars o)).
+Proof.
+  unfold jobs_of. rewrite in_map_iff. split.
+  - intros ([i k] & E & Hin). apply in_enumerate in Hin. destruct Hin as [_ Hin]. rewrite Nat.sub_0_r in Hin.
+    cbn [fst snd] in E. injection E as <- <- <-. exists i. auto.
+  - intros (i & Hi & -> & ->). exists (i, index). split; [reflexivity|]. apply in_enumerate. rewrite Nat.sub_0_r. split; [lia|exact Hi].
+Qed.
+
+Definition view_pre (vals vars : list (list Q)) (fails : list bool) (objs : list Midpoint.objective) (ix : list nat)
+  : option (list (nat * list Q * list Q)) :=
+  match ix with
+  | [] => Some []
+  | _ => match Midpoint.preprocess ix vals vars fails objs (repeat (@None Q) (length objs)) with
+         | Some o => Some (jobs_of (map negb fails) ix o) | None => None end
+  end.
+Definition view_jobs (vals vars : list (list Q)) (fails : list bool) (objs : list Midpoint.objective) (opt_ix con_ix : list nat)
+  : option (list (nat * list Q * list Q)) :=
+  match view_pre vals vars fails objs opt_ix, view_pre vals vars fails objs con_ix with
+  | Some jo, Some jc => Some (jo ++ jc) | _, _ => None end.
+
+Lemma view_pre_idx vals vars fails objs ix j : view_pre vals vars fails objs ix = Some j -> map idx j = ix.
+Proof.
+  unfold view_pre. destruct ix as [|a ix]; [intro H; injection H as <-; reflexivity|].
+  destruct (Midpoint.preprocess (a :: ix) vals vars fails objs (repeat None (length objs))); [|discriminate].
+  intro H. injection H as <-. apply map_idx_jobs_of.
+Qed.
+
+Lemma view_jobs_idx vals vars fails objs opt_ix con_ix jobs :
+  view_jobs vals vars fails objs opt_ix con_ix = Some jobs -> map idx jobs = opt_ix ++ con_ix.
+Proof.
+  unfold view_jobs.
+  destruct (view_pre vals vars fails objs opt_ix) as [jo|] eqn:E1; [|discriminate].
+  destruct (view_pre vals vars fails objs con_ix) as [jc|] eqn:E2; [|discriminate].
+  intro H. injection H as <-. rewrite map_app, (view_pre_idx _ _ _ _ _ _ E1), (view_pre_idx _ _ _ _ _ _ E2). reflexivity.
+Qed.
+
+Lemma view_pre_in vals vars fails objs ix j index v w : view_pre vals vars fails objs ix = Some j -> In (index, v, w) j ->
+  exists o i, Midpoint.preprocess ix vals vars fails objs (repeat None (length objs)) = Some o /\ nth_error ix i = Some index /\
+    v = Midpoint.select (map negb fails) (Midpoint.column i (Midpoint.v_values o)) /\
+    w = Midpoint.select (map negb fails) (Midpoint.column i (Midpoint.v_vars o)).
+Proof.
+  unfold view_pre. destruct ix as [|a ix]; [intro H; injection H as <-; intros []|].
+  destruct (Midpoint.preprocess (a :: ix) vals vars fails objs (repeat None (length objs))) as [o|]; [|discriminate].
+  intro H. injection H as <-. intro Hin. apply in_jobs_of in Hin. destruct Hin as (i & Hi & Hv & Hw). exists o, i. auto.
+Qed.
+
+(* every job of the view is a column of one of the two families (per-metric data) *)
+Lemma view_jobs_in vals vars fails objs opt_ix con_ix jobs index v w :
+  view_jobs vals vars fails objs opt_ix con_ix = Some jobs -> In (index, v, w) jobs ->
+  exists ix o i, (ix = opt_ix \/ ix = con_ix) /\
+    Midpoint.preprocess ix vals vars fails objs (repeat None (length objs)) = Some o /\
+    nth_error ix i = Some index /\
+    v = Midpoint.select (map negb fails) (Midpoint.column i (Midpoint.v_values o)) /\
+    w = Midpoint.select (map negb fails) (Midpoint.column i (Midpoint.v_vars o)).
+Proof.
+  unfold view_jobs.
+  destruct (view_pre vals vars fails objs opt_ix) as [jo|] eqn:E1; [|discriminate].
+  destruct (view_pre vals vars fails objs con_ix) as [jc|] eqn:E2; [|discriminate].
+  intro H. injection H as <-. intro Hin. apply in_app_or in Hin. destruct Hin as [Hin|Hin].
+  - destruct (view_pre_in _ _ _ _ _ _ _ _ _ E1 Hin) as (o & i & R). exists opt_ix, o, i. split; [left; reflexivity|exact R].
+  - destruct (view_pre_in _ _ _ _ _ _ _ _ _ E2 Hin) as (o & i & R). exists con_ix, o, i. split; [right; reflexivity|exact R].
+Qed.
+
+Lemma hyperopt_view_unfold cs points tasks vals vars fails objs opt_ix con_ix hps opt :
+  hyperopt_view cs points tasks vals vars fails objs opt_ix con_ix hps opt =
+  match view_jobs vals vars fails objs opt_ix con_ix with
+  | Some jobs => run_jobs cs (negb (is_none tasks)) (Midpoint.select (map negb fails) (one_hot_rows cs points tasks)) hps opt jobs hps []
+  | None => Err ScalingError
+  end.
+Proof.
+  unfold hyperopt_view, view_jobs, view_pre.
+  destruct opt_ix as [|a oi]; destruct con_ix as [|b ci]; cbv zeta;
+    repeat match goal with |- context [Midpoint.preprocess ?i ?a ?b ?c ?d ?e] => destruct (Midpoint.preprocess i a b c d e) end;
+    reflexivity.
+Qed.
+
+(* The endpoint, for ANY optimiser behaviour `opt` (C11's "all optimizer randomness"). *)
+Theorem hyperopt_view_spec cs points tasks vals vars fails objs opt_ix con_ix hps opt out tr :
+  hyperopt_view cs points tasks vals vars fails objs opt_ix con_ix hps opt = Ok (out, tr) ->
+  let mt := negb (is_none tasks) in
+  let rows := Midpoint.select (map negb fails) (one_hot_rows cs points tasks) in
+  exists jobs, view_jobs vals vars fails objs opt_ix con_ix = Some jobs /\ map idx jobs = opt_ix ++ con_ix /\
+    length out = length hps /\
+    Forall (fit_ok cs mt rows hps jobs) tr /\
+    (forall k, ~ In k (map f_metric tr) -> nth_error out k = nth_error hps k) /\
+    (forall k, ~ In k (opt_ix ++ con_ix) -> nth_error out k = nth_error hps k) /\
+    (NoDup (opt_ix ++ con_ix) -> forall index v w d, In (index, v, w) jobs -> ptp v = Some d -> d <= MINVAR ->
+        nth_error out index = nth_error hps index) /\
+    (NoDup (opt_ix ++ con_ix) -> forall i f, nth_error tr i = Some f -> (f_metric f < length hps)%nat ->
+        exists x dd, opt i f = Ok x /\ unpack cs mt (f_auto f) x = Some dd /\ nth_error out (f_metric f) = Some dd).
+Proof.
+  rewrite hyperopt_view_unfold. destruct (view_jobs vals vars fails objs opt_ix con_ix) as [jobs|] eqn:Ej; [|discriminate].
+  intro H. cbv zeta. exists jobs. split; [reflexivity|]. pose proof (view_jobs_idx _ _ _ _ _ _ _ Ej) as Hidx.
+  split; [exact Hidx|]. apply run_jobs_inv in H. destruct H as (Hlen & new & Etr & Hf & Hun & Hres). simpl in Etr. subst tr.
+  split; [exact Hlen|]. split; [exact Hf|]. split; [exact Hun|]. split; [|split].
+  - intros k Hk. apply Hun. intro C. apply Hk. rewrite <- Hidx. apply in_map_iff in C. destruct C as (f & <- & Hin).
+    rewrite Forall_forall in Hf. destruct (Hf f Hin) as (v & w & _ & _ & Hj & _).
+    change (f_metric f) with (idx (f_metric f, v, w)). apply in_map. exact Hj.
+  - intros Hnd index v w d Hin Hd Hle. apply Hun. rewrite <- Hidx in Hnd.
+    eapply skipped_not_fitted; eauto.
+  - intros Hnd i f Hi Hlt. rewrite <- Hidx in Hnd. exact (Hres Hnd i f Hi Hlt).
+Qed.
+
+(* with the optimiser that is actually used (multistart over the fit's box from the fit's start vector): every fitted
+   dictionary packs to a vector inside the box or to the start vector; its structure is the supplied one; all positive *)
+Theorem fitted_dict_spec cs mt rows hps jobs f x dd :
+  Forall (fun c => wf_component c = true) cs -> Forall grid_increasing cs ->
+  fit_ok cs mt rows hps jobs f ->
+  (in_boxb (f_box f) x = true \/ x = f_x0 f) ->
+  unpack cs mt (f_auto f) x = Some dd ->
+  (forall h, nth_error hps (f_metric f) = Some h ->
+     length (start_vector cs h) = S (Decode.one_hot_dim cs + b2n mt + b2n (f_auto f))) ->
+  structure_b cs mt (f_auto f) dd = true /\ pack dd = x /\ all_pos_b dd = true /\
+  (in_boxb (f_box f) (pack dd) = true \/
+   exists h, nth_error hps (f_metric f) = Some h /\ pack dd = start_vector cs h).
+Proof.
+  intros Hwf Hg (v & w & h & d & _ & Hh & Ef & _ & _ & Hpos) Hx Hu Hsv.
+  assert (Hbox : BoxOk (f_box f) /\ length (f_box f) = S (Decode.one_hot_dim cs + b2n mt + b2n (f_auto f))).
+  { rewrite Ef. cbn [f_box f_auto make_fit]. apply search_box_spec; auto; unfold DLL; lra. }
+  destruct Hbox as [Hbox Hbl].
+  assert (Hlen : length x = S (Decode.one_hot_dim cs + b2n mt + b2n (f_auto f)) /\ forallb pos_b x = true).
+  { destruct Hx as [Hx| ->].
+    - destruct (in_box_positive _ _ Hbox Hx) as [Hp Hl]. split; [congruence|exact Hp].
+    - assert (E0 : f_x0 f = start_vector cs h) by (rewrite Ef; reflexivity). rewrite E0. split; [apply Hsv; exact Hh|].
+      unfold start_vector. rewrite forallb_app, Hpos. destruct (is_none (h_tik h)); reflexivity. }
+  destruct Hlen as [Hlen Hp].
+  destruct (unpack_structure cs mt (f_auto f) x Hlen) as (d' & Hu' & Hs & Hpk & _). rewrite Hu in Hu'. injection Hu' as <-.
+  split; [exact Hs|]. split; [exact Hpk|]. split; [unfold all_pos_b; rewrite Hpk; exact Hp|].
+  rewrite Hpk. destruct Hx as [Hx| ->]; [left; exact Hx|]. right. exists h. split; [exact Hh|]. rewrite Ef. reflexivity.
+Qed.
+
+(* the strict reading "in the box or equal to the SUPPLIED values" fails in the nugget slot: with a supplied nugget and an
+   optimiser all of whose runs fail, the endpoint returns the start vector, whose nugget is 1e-10 -- outside the box and
+   different from the supplied 1/100 (known finding C11:endpoint:fallback-nugget-is-default-1e-10) *)
+Definition all_fail_run (_ _ : nat) (p : list Q) : Multistart.outcome := Multistart.mkoc false false p None.
+Definition no_gen (_ k : nat) : list (list Q) := repeat [1; 1; 1] k.
+Lemma fallback_nugget_refuted :
+  exists cs points vals vars fails objs hps out tr d f,
+    hyperopt_view cs points None vals vars fails objs [0%nat] [] hps (multistart_opt all_fail_run no_gen) = Ok (out, tr) /\
+    nth_error hps 0 = Some (mkhp 1 [[Some 1]] None (Some (1 # 100))) /\
+    nth_error out 0 = Some d /\ tr = [f] /\
+    h_tik d = Some DEFAULT_TIK /\ ~ DEFAULT_TIK == 1 # 100 /\ in_boxb (f_box f) (pack d) = false.
+Proof.
+  exists [Double 0 1], [[0]; [1 # 2]; [1]], [[0]; [1]; [3]], [[0]; [0]; [0]], [false; false; false], [Midpoint.Maximize],
+         [mkhp 1 [[Some 1]] None (Some (1 # 100))].
+  eexists. eexists. eexists. eexists.
+  split; [vm_compute; reflexivity|]. split; [reflexivity|]. split; [reflexivity|]. split; [reflexivity|].
+  split; [reflexivity|]. split; [intro C; vm_compute in C; discriminate|]. vm_compute. reflexivity.
+Qed.
